@@ -89,6 +89,13 @@ def _files(case, rec):
     d = tempfile.mkdtemp(prefix="vmon-c11-")
     try:
         pc, pj = os.path.join(d, "o.csv"), os.path.join(d, "o.json")
+        # the output paths already exist and hold the result of an earlier run on another input
+        try:
+            other, _ = annotator.extract_secondary_structure(gen3d.load("tests/1A1T_1_B.cif" if not case["file"].endswith("1A1T_1_B.cif") else "tests/1E7K_1_C.cif"), None)
+            annotator.write_csv(pc, other)
+            annotator.write_json(pj, other)
+        except Exception:
+            open(pc, "w").write("nt1,nt2,type,classification-1,classification-2\nX.A1,X.A2,stacking,upward,\n")
         annotator.write_csv(pc, s2d)
         annotator.write_json(pj, s2d)
         rows = list(csv.reader(open(pc)))[1:]
